@@ -174,8 +174,15 @@ def mgs_input(rng):
         sums.add(sum(x for i, x in enumerate(g) if mask >> i & 1))
     sums = sorted(sums)
     nums = rng.sample(sums, rng.randint(1, min(5, len(sums))))
-    return {"numbers": nums, "total": sum(g), "lowerbound": rng.choice([1, 1, 1, 2]),
-            "remove_complement_values": rng.random() < 0.7, "max_multiplicity": rng.choice([1, 1, 2])}
+    inp = {"numbers": nums, "total": sum(g), "lowerbound": rng.choice([1, 1, 1, 2]),
+           "remove_complement_values": rng.random() < 0.7, "max_multiplicity": rng.choice([1, 1, 2]),
+           "partition_constraints": None}
+    if inp["max_multiplicity"] == 1 and len(g) >= 2 and rng.random() < 0.5:
+        cut = rng.randint(1, len(g) - 1)            # a number partition of the total (extends the k-range since 883b781)
+        inp["partition_constraints"] = [[sum(g[:cut]), sum(g[cut:])]]
+        if len(g) == 3 and rng.random() < 0.5:
+            inp["partition_constraints"].append([g[0], g[1], g[2]])
+    return inp
 
 
 # ------------------------------------------------------------------------------------------ observation
@@ -262,6 +269,13 @@ def spec_mfd(fp, edges, opts):
     lb0 = fp.MinFlowDecomp(graph_of(edges), flow_attr="flow", weight_type=int, optimization_options=o0,
                            solver_options=dict(SO)).get_lowerbound_k()
     ne = G.number_of_edges(); nw = len({f for _, _, f in edges})
+    cuts = 0
+    if opts.get("use_min_gen_set_lowerbound_partition_constraints"):
+        probe = fp.MinFlowDecomp(graph_of(edges), flow_attr="flow", weight_type=int, optimization_options=dict(o0), solver_options=dict(SO))
+        pcs = probe._get_partition_constraints_for_min_gen_set(
+            min_constraint_len=fp.MinFlowDecomp.use_min_gen_set_lowerbound_partition_constraints_min_constraint_len,
+            limit_num_constraints=fp.MinFlowDecomp.use_min_gen_set_lowerbound_partition_constraints_limit_num_constraints)
+        cuts = sum(len(c) - 1 for c in pcs)
     gr = []
     for k in range(ne + 2):
         try:
@@ -274,7 +288,7 @@ def spec_mfd(fp, edges, opts):
         m = obs["m"]; gwm = getattr(m, "_given_weights_model", None); gw = 0
         if gwm is not None and gwm.is_solved():
             gw = len(gwm.get_solution(remove_empty_paths=True)["paths"])
-        return "mfd " + common.toks(SWITCH[K_MGS], SWITCH[K_EXIT], UPPER_EXCL, lb0, ne, bool(opts.get("use_min_gen_set_lowerbound")), nw,
+        return "mfd " + common.toks(SWITCH[K_MGS], SWITCH[K_EXIT], UPPER_EXCL, lb0, ne, bool(opts.get("use_min_gen_set_lowerbound")), nw, cuts,
                                     bool(opts.get("optimize_with_guessed_weights")), gw, len(gr), gr, raw_toks(obs["log"]))
     return Spec("MinFlowDecomp", {"edges": edges}, opts, build, request,
                 lambda s: len(s["paths"]), lambda m: m.fd_model)
@@ -324,10 +338,12 @@ def spec_mgs(fp, inp):
     def build():
         return fp.MinGenSet(numbers=list(inp["numbers"]), total=inp["total"], weight_type=int,
                             max_multiplicity=inp["max_multiplicity"], lowerbound=inp["lowerbound"],
+                            partition_constraints=copy.deepcopy(inp.get("partition_constraints")),
                             remove_complement_values=inp["remove_complement_values"], solver_options=dict(SO))
 
     def request(obs):
-        return "mgs " + common.toks(SWITCH[K_MGS], inp["lowerbound"], len(inp["numbers"]), raw_toks(obs["log"]))
+        cuts = sum(len(c) - 1 for c in (inp.get("partition_constraints") or []))
+        return "mgs " + common.toks(SWITCH[K_MGS], inp["lowerbound"], len(inp["numbers"]), cuts, raw_toks(obs["log"]))
     return Spec("MinGenSet", inp, {}, build, request, lambda s: len(s), lambda m: m)
 
 
@@ -394,8 +410,8 @@ def rebuild_spec(fp, cls, inp, opts):
 def property_failures(spec, obs, nat):
     """C13 evaluated directly on one run of the implementation.  Returns list of (what, position, phase)."""
     bad = []; log = obs["log"]; out = obs["outcome"]; post = obs["post"]; pre = obs["pre"]
-    # getters before solve raise, is_solved() is not True
-    if pre["is_solved"] == "T" or pre["get_solution"] != "R" or pre.get("get_objective_value", "R") != "R":
+    # getters before solve raise, is_solved() returns False (NumPathsOptimization too, since /repo c4fc05d)
+    if pre["is_solved"] != "F" or pre["get_solution"] != "R" or pre.get("get_objective_value", "R") != "R":
         bad.append(("before solve(): is_solved/get_solution/get_objective_value gave " + repr(pre), None, "pre"))
     # solve() result, is_solved() and the getters agree
     if out == "S":
@@ -472,6 +488,9 @@ def injection_plans(nat_log, spec, extend, timed):
     for p in range(L):
         for s in INCONCLUSIVE:
             plans.append(({p: s}, None))
+    if L and spec.cls != "NumPathsOptimization":
+        # exhaust the range: every k from the last natural position on is reported infeasible (pins the upper end)
+        plans.append(({q: "kInfeasible" for q in range(L - 1, L + 14)}, None))
     if L and nat_log[-1]["tag"] == "main":
         for p in range(L, L + extend):
             F = {q: "kInfeasible" for q in range(L - 1, p)}
@@ -661,7 +680,8 @@ MFD_OPTS = [{}, {"optimize_with_greedy": False},
             {"optimize_with_greedy": False, "use_min_gen_set_lowerbound": True},
             {"optimize_with_greedy": False, "optimize_with_guessed_weights": True},
             {"optimize_with_greedy": False, "optimize_with_guessed_weights": True, "use_min_gen_set_lowerbound": True},
-            {"use_min_gen_set_lowerbound": True}]
+            {"use_min_gen_set_lowerbound": True},
+            {"optimize_with_greedy": False, "use_min_gen_set_lowerbound": True, "use_min_gen_set_lowerbound_partition_constraints": True}]
 MFDC_OPTS = [{}, {"use_min_gen_set_lowerbound": True}, {"optimize_with_guessed_weights": True},
              {"optimize_with_guessed_weights": True, "use_min_gen_set_lowerbound": True}]
 NPO_CRIT = [{"stop_on_first_feasible": True}, {"stop_on_delta_abs": 0.5}, {"stop_on_delta_abs": 2},
